@@ -336,6 +336,13 @@ fn run_angle(cfg: &Cfg) -> ! {
         if a == 0 && b == 0 && c == 0 { return; }
         check_vec3(a as f32 * m, b as f32 * m, c as f32 * m, r);
     }));
+    // mixed magnitudes per component: near-axis / near-pole vectors (aspect ratios up to 1e6)
+    let mm = [0.0f32, 1e-6, -1e-4, 3e-4, -1e-2, 0.5, 1.0, -3.0, 1e3];
+    rep.merge(par_range(cfg, 9 * 9 * 9, |i, r| {
+        let (a, b, c) = (mm[(i % 9) as usize], mm[(i / 9 % 9) as usize], mm[(i / 81) as usize]);
+        if a != 0.0 || b != 0.0 { check_vec2(a, b, r); }
+        if a != 0.0 || b != 0.0 || c != 0.0 { check_vec3(a, b, c, r); check_vec3(-a, c, b, r); }
+    }));
     rep.merge(par_range(cfg, 49 * 25 * 4, |i, r| {
         let (az, alt, m) = ((i % 49) as f32 * 7.5 - 180.0, (i / 49 % 25) as f32 * 7.5 - 90.0, mags[(i / 49 / 25) as usize]);
         check_polar_first(m, az, alt, r);
@@ -343,7 +350,7 @@ fn run_angle(cfg: &Cfg) -> ! {
     let _: Angle = Angle::ZERO;
     rep.sample(0, || obj! {"angle_deg" => -1500.0, "wrap_interval_turns" => vec![0.0, 1.0], "vec2" => vec![-2e-7, 2e-7], "vec3" => vec![0.0, -5e-7, 0.0]});
     rep.finish(cfg, "exploration",
-        "angles k*7.5 deg for |k|<=480 (+-10 turns) with +-1 ulp neighbours and {1e-6,1e4,1e6,...} rad: unit conversions in all directions, sin/cos/sin_cos, operators/clamp/min/max on the magnitude, wrap into 7 intervals x 3 unit spellings (in range, congruent); 2-D and 3-D vector lattices x magnitudes {1e-9,1e-6,1,1e4} minus zero: radius = length, azimuth/altitude ranges and values vs f64 atan2, Cartesian->polar/spherical->Cartesian and the reverse order round trips. non-trivial = wrapped from outside the interval / round trip verified.",
+        "angles k*7.5 deg for |k|<=480 (+-10 turns) with +-1 ulp neighbours and {1e-6,1e4,1e6,...} rad: unit conversions in all directions, sin/cos/sin_cos, operators/clamp/min/max on the magnitude, wrap into 7 intervals x 3 unit spellings (in range, congruent); 2-D and 3-D vector lattices x magnitudes {1e-9,1e-6,1,1e4} minus zero, plus a 9^3 lattice mixing magnitudes 1e-6..1e3 per component (near-axis and near-pole vectors): radius = length, azimuth/altitude ranges and values vs f64 atan2, Cartesian->polar/spherical->Cartesian and the reverse order round trips. non-trivial = wrapped from outside the interval / round trip verified.",
         &["std trigonometry; tolerances 1e-4 relative (coordinates), 1e-4 rad (angles), 1e-6 relative (unit conversions)"])
 }
 
